@@ -23,7 +23,7 @@ def height(rnd, d, free=False):
     return h if (0.0 < h <= 1.0 and (h == 1.0 or abs(h - 1.0) > 0.0015)) else 1.0
 
 
-def shape_term(rnd, name, lo, hi, kinds=None, d=3, kind=None, degenerate=True, free_height=False):
+def shape_term(rnd, name, lo, hi, kinds=None, d=3, kind=None, degenerate=True, free_height=False, reversed_bounds=False):
     """spec = dict(cls, name, params, height); every parameter is a Python float on the d-decimals grid"""
     w = hi - lo
     unit = 10.0**-d
@@ -50,6 +50,8 @@ def shape_term(rnd, name, lo, hi, kinds=None, d=3, kind=None, degenerate=True, f
         p = list(two())
     elif k in ("Rectangle", "SShape", "ZShape"):
         p = sorted(two())
+        if reversed_bounds and k == "Rectangle" and rnd.random() < 0.5:
+            p = p[::-1]  # end before start: the library reads the pair as an interval whichever way round it is given
         if degenerate and k != "Rectangle" and rnd.random() < 0.12:
             p[1] = p[0]  # vertical edge: a step function
     elif k == "Bell":
@@ -141,7 +143,7 @@ def build_term(fl, t, engine=None, route=None):
         return term
     if route in ("create", "factory") and k == "Discrete":
         xs, ys = t["params"][0::2], t["params"][1::2]
-        form = len(xs) % 4
+        form = (len(xs) + int(sum(abs(v) for v in t["params"] if math.isfinite(v)) * 1024)) % 4
         if form == 0:
             return fl.Discrete.create(t["name"], " ".join(repr(float(p)) for p in t["params"]), t["height"])
         if form == 1:
